@@ -44,10 +44,12 @@ def run(tier, seed, replay=None):
         if r.random() < 0.5:
             b1["required"] = [names[0]]
         third = []
-        if r.random() < 0.4:
+        if i % 3 == 1:
             third = [{"type": "object", "properties": {names[3]: {"type": "string"}}}]
-        elif r.random() < 0.5:
+        elif i % 3 == 2:
             third = [{"type": ["object", "null"], "properties": {names[3]: {"type": "string"}}}]   # already nullable
+            if i % 2:
+                third, b2 = [], dict(b2, type=["object", "null"])   # ... as one of two branches
         doc = {"definitions": {"Contact": {"anyOf": [b1, b2] + third}}}
         docs.append(("y%04d" % i, doc, ["anyof_overlap"]))
     cases = [{"id": did, "settings": {"struct_builder": True}, "history": [{"op": "root", "schema": doc}]}
